@@ -27,7 +27,9 @@ RULE = ("history: one built-in Function class (all 33 concrete classes of Functi
         "cache at that time, and at least one reset that was followed by a further evaluation. integral: class with an "
         "analytic integral (FunctionGeneralizedNormal excluded), parameters scaled to a drawn box (width*coefficient "
         "bounded so that two Gauss rules agree to 1e-11), kinks/borders placed left of / on the boundary of / inside / "
-        "right of the box; non-trivial = d>=2 with at least two different widths, or a kink strictly inside the box; "
+        "right of the box; the box corners are handed over as tuple, list, float ndarray or int ndarray (drawn independently "
+        "for start and end), FunctionCompose has 2-3 parts in drawn order (half of them with a discontinuous/kinked part first), "
+        "FunctionShift (list- or ndarray-valued translation) wraps a leaf or such a composition; non-trivial = d>=2 with at least two different widths, or a kink strictly inside the box; "
         "cases whose reference is not resolved are counted (class ref-unresolved) and not asserted. Distinct = distinct case dict.")
 ASSUMPTIONS = [
     "evaluation counter (get_f_dict_size) is asserted only while caching is on; it counts points passed to __call__ "
@@ -37,6 +39,8 @@ ASSUMPTIONS = [
     "points lie in the class's domain (positive orthant for GenzCornerPeak/FunctionExpVar, unit cube for FunctionG*, "
     "(0,1) for FunctionInverseTransform); coefficients are floats, non-zero / positive where the formula divides by them or "
     "takes their square root; zero coefficients only for GenzOszillatory (handled by the source) and the linear families",
+    "getAnalyticSolutionIntegral, __call__ and eval_vectorized must leave the containers passed in unchanged (the statement's "
+    "'integral over any box' / 'same values' are read for the caller's box and points); the reference always uses a snapshot",
     "FunctionShift is used with translations (the only coordinate map for which its integral forwarding is meaningful)",
     "FunctionG/FunctionGShifted/FunctionDiagonalDiscont integrals only on the unit cube (asserted by the source)",
     "FunctionUQNormal/FunctionUQNormal2.getAnalyticSolutionIntegral are weighted expectations, not integrals of eval: not compared",
@@ -903,6 +907,16 @@ def integral_fixed():
         dict(spec=dict(cls="ConstantValue", d=2, value=3), a=[0.0, 0.0], b=[1.0, 2.0]),
         dict(spec=dict(cls="ConstantValue", d=3, value=3.0), a=[-1.0, 0.0, 0.5], b=[1.0, 2.0, 0.75]),
     ]
+    # a discontinuous function listed before another one in a composition, border inside the box: every box container form,
+    # and a FunctionShift (list- and ndarray-valued coordinate map) around the composition
+    disc = dict(cls="GenzDiscontinious", d=2, coeffs=[1.0, -0.5], border=[0.5, 2.0])
+    comp = dict(cls="FunctionCompose", d=2, parts=[[disc, 1.0], [dict(cls="FunctionLinear", d=2, coeffs=[1.0, 2.0]), 0.5],
+                                                   [dict(cls="GenzC0", d=2, coeffs=[1.0, 2.0], midpoint=[0.25, 0.5]), -1.0]])
+    for af, bf in (("tuple", "tuple"), ("list", "farray"), ("farray", "farray"), ("iarray", "iarray"), ("farray", "tuple")):
+        cases.append(dict(spec=comp, a=[0.0, 0.0], b=[1.0, 1.0], a_form=af, b_form=bf))
+        for form in ("list", "array"):
+            cases.append(dict(spec=dict(cls="FunctionShift", d=2, inner=comp, t=[0.25, -0.5], shift_form=form),
+                              a=[-0.25, 0.5], b=[0.75, 1.5], a_form=af, b_form=bf))
     for d in (1, 2, 3, 4):
         for cls in UNIT_BOX_ONLY:
             cases.append(dict(spec=dict(cls=cls, d=d), a=[0.0] * d, b=[1.0] * d))
@@ -948,6 +962,19 @@ def selftest():
         import sparseSpACE.Function as F
         return F.LambdaFunction(LAMBDA_1D["cos"][0], lambda s: math.sin(s[0]) * (1 + 1e-7))
     assert run_integral(good, factory=badanti).violations, "wrong antiderivative not rejected"
+
+    def clipping(spec):      # an integral that clips the caller's end array in place
+        f = build(spec)
+        orig = f.getAnalyticSolutionIntegral
+
+        def mutating(start, end):
+            r = orig(start, end)
+            end[0] = 0.5 * (start[0] + end[0])
+            return r
+        f.getAnalyticSolutionIntegral = mutating
+        return f
+    o = run_integral(dict(good, b_form="farray"), factory=clipping)
+    assert [sig for sig, _ in o.violations] == [SUB_I + "/arguments-mutated/LambdaFunction"], o.violations
 
 
 SUBS = [
